@@ -356,4 +356,157 @@ theorem atoi_printInt (i : Int) : atoi (printInt i) = i := by
     · rename_i heq; cases heq; omega
     · rw [hv]; omega
 
+/-! ### attribute lists: the importer's next_attr loop reads what new_prop wrote -/
+
+set_option linter.unusedSimpArgs false
+
+theorem takeWhile_append_all (p : Nat → Bool) : ∀ (pre b : List Nat), (∀ c ∈ pre, p c = true) →
+    (pre ++ b).takeWhile p = pre ++ b.takeWhile p
+  | [], b, _ => rfl
+  | c :: pre, b, h => by
+    have hc : p c = true := h c (by simp)
+    simp [List.takeWhile, hc, takeWhile_append_all p pre b (fun x hx => h x (by simp [hx]))]
+
+theorem takeWhile_head_false (p : Nat → Bool) (c : Nat) (r : List Nat) (h : p c = false) : (c :: r).takeWhile p = [] := by
+  simp [List.takeWhile, h]
+
+theorem takeWhile_all_then (p : Nat → Bool) (l : List Nat) (c : Nat) (r : List Nat) (hl : ∀ x ∈ l, p x = true) (hc : p c = false) :
+    (l ++ c :: r).takeWhile p = l := by
+  rw [takeWhile_append_all p l _ hl, takeWhile_head_false p c r hc, List.append_nil]
+
+theorem drop_takeWhile_length (p : Nat → Bool) : ∀ l : List Nat, l.drop (l.takeWhile p).length = l.dropWhile p
+  | [] => rfl
+  | c :: l => by cases h : p c <;> simp [List.takeWhile, List.dropWhile, h, drop_takeWhile_length p l]
+
+theorem mem_takeWhile_p (p : Nat → Bool) : ∀ (l : List Nat) (c : Nat), c ∈ l.takeWhile p → p c = true
+  | [], _, h => by simp at h
+  | a :: l, c, h => by
+    cases ha : p a
+    · simp [List.takeWhile, ha] at h
+    · simp [List.takeWhile, ha] at h
+      rcases h with e | e
+      · rw [e]; exact ha
+      · exact mem_takeWhile_p p l c e
+
+theorem drop_append_len : ∀ (pre b : List Nat) (k : Nat), (pre ++ b).drop (pre.length + k) = b.drop k
+  | [], b, k => by simp
+  | c :: pre, b, k => by
+    have : (c :: pre).length + k = (pre.length + k) + 1 := by simp; omega
+    rw [this]
+    exact drop_append_len pre b k
+
+/-- leading blanks only shift the offsets -/
+theorem nextAttr_blank (pre b : List Nat) (hpre : ∀ c ∈ pre, isBlank c = true) :
+    nextAttr (pre ++ b) = (nextAttr b).map (fun r => (r.1, r.2.1, pre.length + r.2.2)) := by
+  unfold nextAttr
+  have e1 : ((pre ++ b).takeWhile isBlank).length = pre.length + (b.takeWhile isBlank).length := by
+    rw [takeWhile_append_all isBlank pre b hpre]; simp
+  have e2 : (pre ++ b).drop (pre.length + (b.takeWhile isBlank).length) = b.drop (b.takeWhile isBlank).length := by
+    rw [List.drop_append]; simp
+  simp only [e1, e2]
+  split
+  · rfl
+  · cases hu : unescape (List.drop ((List.takeWhile isAttrNameChar (List.drop (List.takeWhile isBlank b).length b)).length + 2)
+        (List.drop (List.takeWhile isBlank b).length b)) with
+    | none => rfl
+    | some r =>
+      obtain ⟨val, q⟩ := r
+      simp only [Option.map_some]
+      have e3 : ∀ k, (pre ++ b).drop (pre.length + k) = b.drop k := by
+        intro k; rw [List.drop_append]; simp
+      have e4 : pre.length + (List.takeWhile isBlank b).length +
+          (List.takeWhile isAttrNameChar (List.drop (List.takeWhile isBlank b).length b)).length + 2 + q + 1 =
+          pre.length + ((List.takeWhile isBlank b).length +
+          (List.takeWhile isAttrNameChar (List.drop (List.takeWhile isBlank b).length b)).length + 2 + q + 1) := by omega
+      rw [e4, e3]
+      congr 3
+      omega
+
+theorem attrNameChar_not_blank (c : Nat) (h : isAttrNameChar c = true) : isBlank c = false := by
+  simp [isAttrNameChar] at h
+  simp [isBlank]
+  omega
+
+/-- one attribute written by `new_prop` (without its leading blank) is read back by `next_attr`, which then stands on the next
+    attribute (blanks skipped) -/
+theorem nextAttr_core (name val rest : List Nat) (hn : ∀ c ∈ name, isAttrNameChar c = true) (hv : ∀ c ∈ val, c ≠ 0) :
+    nextAttr (name ++ 61 :: 34 :: (escape val ++ 34 :: rest)) =
+      some (name, val, name.length + 2 + (escape val).length + 1 + (rest.takeWhile isBlank).length) := by
+  unfold nextAttr
+  have hlead : (name ++ 61 :: 34 :: (escape val ++ 34 :: rest)).takeWhile isBlank = [] := by
+    cases name with
+    | nil => exact takeWhile_head_false _ _ _ (by decide)
+    | cons c cs => exact takeWhile_head_false _ _ _ (attrNameChar_not_blank c (hn c (by simp)))
+  have hname : (name ++ 61 :: 34 :: (escape val ++ 34 :: rest)).takeWhile isAttrNameChar = name :=
+    takeWhile_all_then _ name 61 _ hn (by decide)
+  simp only [hlead, List.length_nil, List.drop_zero, hname, Nat.zero_add]
+  have hd0 : (name ++ 61 :: 34 :: (escape val ++ 34 :: rest)).drop name.length = 61 :: 34 :: (escape val ++ 34 :: rest) := by
+    simp
+  have hd1 : (name ++ 61 :: 34 :: (escape val ++ 34 :: rest)).drop (name.length + 1) = 34 :: (escape val ++ 34 :: rest) := by
+    rw [drop_add', hd0]; rfl
+  have hd2 : (name ++ 61 :: 34 :: (escape val ++ 34 :: rest)).drop (name.length + 2) = escape val ++ 34 :: rest := by
+    rw [drop_add', hd0]; rfl
+  rw [rd_of_drop hd0, rd_of_drop hd1, hd2, unescape_escape val rest hv]
+  simp only [ne_eq, not_true_eq_false, or_self, if_false]
+  have hd3 : (name ++ 61 :: 34 :: (escape val ++ 34 :: rest)).drop (name.length + 2 + (escape val).length + 1) = rest := by
+    rw [drop_add', drop_add', hd2]
+    simp
+  rw [hd3, List.take_left']
+  rfl
+
+theorem scanAttrs_blank (fuel : Nat) (pre b : List Nat) (hpre : ∀ c ∈ pre, isBlank c = true) :
+    scanAttrs fuel (pre ++ b) = scanAttrs fuel b := by
+  cases fuel with
+  | zero => rfl
+  | succ fuel =>
+    simp only [scanAttrs, nextAttr_blank pre b hpre]
+    cases nextAttr b with
+    | none => rfl
+    | some r =>
+      obtain ⟨n, v, off⟩ := r
+      simp only [Option.map_some]
+      rw [drop_append_len]
+
+theorem scanAttrs_dropWhile (fuel : Nat) (b : List Nat) : scanAttrs fuel (b.dropWhile isBlank) = scanAttrs fuel b := by
+  have h := @List.takeWhile_append_dropWhile _ isBlank b
+  conv => rhs; rw [← h]
+  rw [scanAttrs_blank fuel _ _ (by
+    intro c hc
+    exact mem_takeWhile_p isBlank b c hc)]
+
+/-- P1 `scan_render` at the attribute level: the importer's `next_attr` loop reads back exactly the (name, value) list the
+    exporter's `new_prop` calls wrote, for names over `[a-z_]` and NUL-free values -/
+theorem scanAttrs_renderAttrs : ∀ (l : List (List Nat × List Nat)) (fuel : Nat), l.length < fuel →
+    (∀ a ∈ l, (∀ c ∈ a.1, isAttrNameChar c = true) ∧ (∀ c ∈ a.2, c ≠ 0)) → scanAttrs fuel (renderAttrs l) = l
+  | [], fuel, hf, _ => by
+    cases fuel with
+    | zero => simp at hf
+    | succ fuel => simp [renderAttrs, scanAttrs, nextAttr, rd, List.takeWhile]
+  | a :: l, fuel, hf, h => by
+    cases fuel with
+    | zero => simp at hf
+    | succ fuel =>
+      obtain ⟨name, val⟩ := a
+      have ha := h (name, val) (by simp)
+      have hl : ∀ x ∈ l, (∀ c ∈ x.1, isAttrNameChar c = true) ∧ (∀ c ∈ x.2, c ≠ 0) := fun x hx => h x (by simp [hx])
+      have ih := scanAttrs_renderAttrs l fuel (by simp at hf; omega) hl
+      have hb : renderAttrs ((name, val) :: l) = [32] ++ (name ++ 61 :: 34 :: (escape val ++ 34 :: renderAttrs l)) := by
+        simp [renderAttrs, renderAttr]
+      rw [hb]
+      simp only [scanAttrs]
+      rw [nextAttr_blank [32] _ (by intro c hc; simp at hc; subst hc; decide), nextAttr_core name val (renderAttrs l) ha.1 ha.2]
+      simp only [Option.map_some, List.length_singleton]
+      have hdrop : ([32] ++ (name ++ 61 :: 34 :: (escape val ++ 34 :: renderAttrs l))).drop
+          (1 + (name.length + 2 + (escape val).length + 1 + ((renderAttrs l).takeWhile isBlank).length)) =
+          (renderAttrs l).dropWhile isBlank := by
+        rw [← drop_takeWhile_length isBlank (renderAttrs l)]
+        have : 1 + (name.length + 2 + (escape val).length + 1 + ((renderAttrs l).takeWhile isBlank).length) =
+            (1 + name.length + 2 + (escape val).length + 1) + ((renderAttrs l).takeWhile isBlank).length := by omega
+        rw [this, drop_add']
+        congr 1
+        have e : [32] ++ (name ++ 61 :: 34 :: (escape val ++ 34 :: renderAttrs l)) =
+            (32 :: name ++ 61 :: 34 :: escape val ++ [34]) ++ renderAttrs l := by simp
+        rw [e]
+        exact List.drop_left' (by simp; omega)
+      rw [hdrop, scanAttrs_dropWhile, ih]
 end Hw.Xml
